@@ -270,7 +270,7 @@ func TestPinnedStaleNewLink(t *testing.T) {
 func genFaultHistory(rt *rapid.T) (history, faultVariant) {
 	h := history{Crash2: -1}
 	h.Nested = rapid.Bool().Draw(rt, "nested")
-	h.Disk = rapid.IntRange(0, 3).Draw(rt, "disk") == 0
+	h.Disk = rapid.IntRange(0, 7).Draw(rt, "disk") == 0 // the disk file system is several times slower
 	nw := rapid.IntRange(1, 4).Draw(rt, "writes")
 	for i := 0; i < nw; i++ {
 		h.Writes = append(h.Writes, genSet(rt, fmt.Sprintf("h%d", i)))
@@ -288,7 +288,7 @@ func genFaultHistory(rt *rapid.T) (history, faultVariant) {
 // of Write return an error.
 func TestFaultHistories(t *testing.T) {
 	sec := vk.Sec("FaultHistories")
-	vk.Check(t, 120, 8000, func(rt *rapid.T) {
+	vk.Check(t, 100, 8000, func(rt *rapid.T) {
 		h, va := genFaultHistory(rt)
 		if f := checkFaults(h, []faultVariant{va}, sec); f != nil {
 			rt.Logf("%s", f.full)
@@ -311,7 +311,7 @@ func TestFaultSweep(t *testing.T) {
 				if !vk.Mine(idx) {
 					continue
 				}
-				h := history{Nested: nested, Writes: ws, Recov: rv, Crash2: -1, Disk: nested}
+				h := history{Nested: nested, Writes: ws, Recov: rv, Crash2: -1, Disk: idx%8 == 0}
 				if f := checkFaults(h, allVariants, sec); f != nil {
 					t.Fatalf("%s", f.full)
 				}
